@@ -554,3 +554,35 @@ Proof.
     as [H1 H2].
   rewrite H1, H2. reflexivity.
 Qed.
+
+(* ------------------------------------------------------------------ offsets add up along the path *)
+
+Definition hshift (d : Z) (L : hleaf) : hleaf :=
+  {| hl_base := d + hl_base L; hl_aw := hl_aw L; hl_cfg := hl_cfg L; hl_ids := hl_ids L |}.
+
+Lemma map_flat_map {X Y Z'} (f : Y -> Z') (g : X -> list Y) l :
+  map f (flat_map g l) = flat_map (fun x => map f (g x)) l.
+Proof. induction l as [|x l IH]; [reflexivity|]. cbn [flat_map]. rewrite map_app, IH. reflexivity. Qed.
+
+Lemma hw_leaves_shift h : forall base aw,
+  hw_leaves_from base aw h = map (hshift base) (hw_leaves_from 0 aw h).
+Proof.
+  induction h as [c ids|aw' subs IH] using chw_ind'; intros base aw.
+  - cbn [hw_leaves_from map]. unfold hshift. cbn [hl_base hl_aw hl_cfg hl_ids]. rewrite Z.add_0_r. reflexivity.
+  - rewrite !hw_leaves_dec, map_flat_map. rewrite Forall_forall in IH.
+    induction subs as [|p subs IHs]; [reflexivity|]. cbn [flat_map]. f_equal.
+    + rewrite (IH p (or_introl eq_refl) (base + s_start (fst p))), (IH p (or_introl eq_refl) (0 + s_start (fst p))).
+      rewrite map_map. apply map_ext. intros L. unfold hshift. cbn [hl_base hl_aw hl_cfg hl_ids]. f_equal. lia.
+    + apply IHs. intros q Hq. apply IH. right. exact Hq.
+Qed.
+
+(* the leaves of a decoder: those of its children, shifted by the window starts *)
+Lemma hw_leaves_dec_In aw aw' subs L : In L (hw_leaves aw (HDec aw' subs)) <->
+  exists w ch L', In (w, ch) subs /\ In L' (hw_leaves (s_aw w) ch) /\ L = hshift (s_start w) L'.
+Proof.
+  unfold hw_leaves. rewrite hw_leaves_dec, in_flat_map. split.
+  - intros ([w ch] & Hp & HL). cbn [fst snd] in HL. rewrite hw_leaves_shift in HL.
+    apply in_map_iff in HL as (L' & <- & HL'). exists w, ch, L'. rewrite Z.add_0_l. auto.
+  - intros (w & ch & L' & Hp & HL' & ->). exists (w, ch). split; [exact Hp|]. cbn [fst snd].
+    rewrite hw_leaves_shift, Z.add_0_l. apply in_map. exact HL'.
+Qed.
